@@ -92,7 +92,8 @@ PROFILES = {
 def intents_strategy(profile, max_ops):
     kinds = profile.kinds()
     small = st.integers(0, 11)
-    text = st.one_of(st.sampled_from(PHASES + BODIES), st.text(max_size=6))
+    text = st.one_of(st.sampled_from(PHASES + BODIES), st.sampled_from(PHASES + BODIES), st.text(max_size=6), st.text(max_size=6),
+                     st.text(min_size=300, max_size=1500))   # now and then a long phase/body: delivered and stored unmodified
     mask = st.integers(0, 2 ** 16 - 1)
     intent = st.tuples(st.sampled_from(kinds), small, small, small, mask, text, text)
     return st.lists(intent, min_size=max(1, max_ops // 2), max_size=max_ops)
